@@ -17,7 +17,8 @@ use std::num::NonZeroUsize;
 use std::sync::{Arc, Mutex};
 use std::time::Duration;
 
-const KEYSPACES: [&str; 4] = ["ks1", "ksalpha", "ks_beta2", "MixedCase"];
+/// ("MixedCase" must be quoted; "mixedcase" is another keyspace, its lower-cased namesake.)
+const KEYSPACES: [&str; 5] = ["ks1", "ksalpha", "ks_beta2", "MixedCase", "mixedcase"];
 
 #[derive(Default)]
 struct C20Script {
@@ -111,7 +112,7 @@ pub fn run(req: &RunRequest) -> Value {
         client::standard_catalog(&mut cluster, Strategy::Simple(1), false);
         // "mixedcase": the lower-cased namesake of the case-sensitive name exists as well,
         // so that an unquoted `USE MixedCase` would succeed - in the wrong keyspace.
-        for ks in KEYSPACES[1..].iter().copied().chain(std::iter::once("mixedcase")) {
+        for ks in KEYSPACES[1..].iter().copied() {
             cluster.keyspaces.push(KeyspaceDef {
                 name: ks.to_string(),
                 strategy: Strategy::Simple(1),
@@ -199,6 +200,9 @@ async fn main(plan: Plan) -> Outcome {
             PoolSize::PerHost(NonZeroUsize::new(plan.pool).unwrap())
         },
         disallow_shard_aware_port: plan.no_shard_aware_port,
+        // 1 in 3 sessions do not wait for schema agreement after schema-changing statements
+        // (an unrelated convenience; setting the keyspace works the same).
+        no_auto_schema_agreement: tape::chance("c20:no_auto_schema_agreement", 1, 3),
         retry: Some(Arc::new(DefaultRetryPolicy::new())),
         request_timeout: Some(Duration::from_secs(20)),
         keepalive_interval: Some(Duration::from_secs(3)),
